@@ -171,6 +171,31 @@ CHECKS = {
         technique=TECH + "seeded mutation histories on trees with probes, legacy listener vs "
                          "observe vs from-scratch reachability model",
         design="4 (C16)"),
+    "C14": dict(
+        level="exploration",
+        text=("Crash/restart property. Seeded simulated histories on a pool of objects with "
+              "transient traits, ReadOnly, copy metadata (ref/shallow/deep), bounded and nested "
+              "containers, Dict of lists, Instance graphs (shared, cyclic), declared observers, "
+              "name_items handlers and a cached observed property. At generated points the "
+              "whole pool is restarted (pickle protocols 2-5) or forked (deepcopy) and single "
+              "objects are cloned (clone_traits deep/None/shallow, deepcopy); each copy is "
+              "compared with a plain-Python model (class, values, transients reset, identity "
+              "structure per copy mode, no shared container at any depth), then a liveness "
+              "battery runs on it (invalid items rejected with TraitError at every depth, items "
+              "events reach name_items handlers and declared observers, observed property "
+              "recomputes, ReadOnly stays written), originals must not move, and the history "
+              "continues on restored pools. 14 kinds of trait definition objects (incl. a "
+              "validated Property) are round-tripped by pickle/copy/deepcopy and compared with "
+              "their originals on default value and a value set. An interpreter crash is "
+              "triaged to the in-flight run, minimised in child processes and reported. "
+              "Sampling, not proof."),
+        note=("Snapshots compare by read-equivalence (copying materialises defaults on the "
+              "original); copy='ref' links are supposed to share; copy.copy of whole objects is "
+              "shallow by definition and not part of the statement."),
+        technique=TECH + "seeded edit/restart/fork/clone histories against a plain-Python model "
+                         "with a liveness battery after every restore; crash triage in child "
+                         "interpreters",
+        design="4 (C14)"),
 }
 
 NOT_APPLICABLE = {
